@@ -158,6 +158,7 @@ type Dev struct {
 	Sets        uint8    // number of accepted Sets (ghost)
 	LastSetTx   uint8    // ghost: transaction index of the last accepted change Set (0 = re-push)
 	Got         [NX]bool // ghost: the device has accepted the change Set of proposal i at some time
+	RepushTerm  uint8    // ghost: election id of the last re-push Set the device accepted (0 = none since its last restart)
 }
 
 // State is the whole system state (the state vector of the transition system)
@@ -176,6 +177,7 @@ type State struct {
 	SendAfterLater    bool      // a change was sent to a device after the change of a later transaction
 	SendNotMaster     bool      // a Set was sent with an election id different from the stored mastership term
 	SendWhileUnsynced bool      // a change was sent in a term whose re-push had not completed
+	ResyncNoRepush    bool      // the applied term was advanced although applied values exist and no re-push was sent in that term
 	Crashes           uint8     // number of steps that ended in a process stop
 	Faults            uint8     // number of device faults / disconnects / restarts injected
 	W                 Work      // ghost (WithWork): the controllers' pending reconcile requests
@@ -587,6 +589,14 @@ func cfgFlat(t int, c *configapi.Configuration) {
 	rec.Applied = uint8(c.Status.Applied.Index)
 	if WithSync {
 		rec.Term = uint8(c.Status.Mastership.Term)
+		if at := uint8(c.Status.Applied.Mastership.Term); at != rec.AppliedTerm && at != 0 {
+			// ghost: the re-synchronisation of term `at` is being reported complete
+			for j := 0; j < NX; j++ {
+				if rec.AppliedVals[j].Present && S.Devs[t].RepushTerm != at {
+					S.ResyncNoRepush = true
+				}
+			}
+		}
 		rec.AppliedTerm = uint8(c.Status.Applied.Mastership.Term)
 		rec.Master = masterCode(t, c.Status.Mastership.Master)
 		rec.AppliedMaster = masterCode(t, c.Status.Applied.Mastership.Master)
@@ -627,6 +637,7 @@ func (s *cfgStore) Update(ctx context.Context, c *configapi.Configuration) error
 		}
 	}
 	cfgFlat(t, c)
+	c.Values = nil // as the real store does with the caller's object
 	return nil
 }
 
@@ -645,6 +656,7 @@ func (s *cfgStore) UpdateStatus(ctx context.Context, c *configapi.Configuration)
 		pvFlat(c.Status.Applied.Values, &S.Configs[t].AppliedVals)
 	}
 	cfgFlat(t, c)
+	c.Status.Applied.Values = nil // as the real store does with the caller's object
 	return nil
 }
 
@@ -757,7 +769,8 @@ func ghostSend(t int, el uint8) {
 		S.SendNotMaster = true
 	}
 	if !InProposalStep || CurT != t {
-		return // re-push by the configuration controller
+		S.Devs[t].RepushTerm = el // re-push by the configuration controller
+		return
 	}
 	x := CurX
 	S.Devs[t].Got[x] = true
@@ -1058,6 +1071,7 @@ func step(choice int, probe bool) {
 			S.Devs[t].Vals = [NX]PV{}
 			S.Devs[t].MaxElection = 0
 			S.Devs[t].LastSetTx = 0
+			S.Devs[t].RepushTerm = 0
 			S.Faults++
 		}
 	}
